@@ -1,11 +1,22 @@
 #[cfg(test)]
 use portable_atomic::{AtomicBool, Ordering};
 use std::borrow::Cow;
+#[cfg(not(feature = "verif-hooks"))]
 use std::sync::{Arc, Condvar, Mutex, MutexGuard, Weak};
+#[cfg(feature = "verif-hooks")]
+use crate::verif_hooks::sync::{Arc, Condvar, Mutex, MutexGuard, Weak};
 use std::time::Duration;
+#[cfg(not(feature = "verif-hooks"))]
 #[cfg(not(target_arch = "wasm32"))]
 use std::time::Instant;
+#[cfg(feature = "verif-hooks")]
+use crate::verif_hooks::Instant;
+#[cfg(not(feature = "verif-hooks"))]
 use std::{fmt, io, thread};
+#[cfg(feature = "verif-hooks")]
+use crate::verif_hooks::thread;
+#[cfg(feature = "verif-hooks")]
+use std::{fmt, io};
 
 #[cfg(test)]
 use once_cell::sync::Lazy;
